@@ -343,6 +343,7 @@ def run_all(tier, seed):
         path2, xlog2, err2 = D.gen(d2, extract_cfg=cfg2)
         u = {'gen_path': path2, 'err': (str(err2[2])[:600] if err2 else None), 'lost': [], 'diags': [], 'ok': False, 'wall_s': 0.0, 'cmd': ''}
         if not err2:
+            u['shapes'] = dict((k, v) for k, v in xlog2.get('shapes', {}).items() if 'rust_secp256k1' in k or k.endswith('check_spec_reserved_keys'))
             u['lost'] = [l for l in (xlog2.get('lost', []) + xlog2.get('fuzzy', []) + xlog2.get('renamed', []))
                          if 'rust_secp256k1' in l or 'check_spec_reserved_keys' in l]
             ra = one(path2, ['--verify-only-module', 'code::keys::rust_secp256k1'], 'z3 default, all-features configuration: module keys::rust_secp256k1')
@@ -469,6 +470,11 @@ def check(prop, tier, seed):
     hint_state = res.get('hint_state', {})
     renamed_fns = set(re.sub(r'\s+', '', k) for k in res.get('renamed_fns', []))
     novel = novelty(res.get('extract_log', {}))
+    if res.get('unit_secp') and res['unit_secp'].get('shapes'):
+        # the same guard for the functions of the all-features unit (a function that exists in both configurations is compared
+        # with its main-configuration shape)
+        for k, why in novelty({'shapes': res['unit_secp']['shapes']}).items():
+            novel[re.sub(r'\s+', '', k + ' [all-features configuration]')] = why
     lost_fns = set(k for k, st in hint_state.items() if st['config'] != 'FULL')
     dropped_fns = set(re.sub(r'\s+', '', k) for k, v in res.get('degraded', {}).items() if v.startswith('BODY NOT VERIFIED'))
     hint_baseline = load_hint_baseline()
